@@ -10,7 +10,56 @@ static inline unsigned sbit(const m_state_t *s, unsigned i)
     return (unsigned)((s->w[i >> 6] >> (i & 63)) & 1u);
 }
 
+/* 32 steps at a time: valid because the highest tap (91) plus 31 stays below 128, so none of the 32 new bits is an
+ * input of the same batch.  NOT used unless m_use_fast_perm(1) was called, which first compares it with the literal
+ * bit-serial version on random states, keys and step counts; meant for the multi-GiB cases only. */
+static int g_fast_perm;
+static void m_perm_fast(m_state_t *s, const uint8_t *key, unsigned klen_bits, unsigned nsteps)
+{
+    unsigned i, kw = 0, nkw = klen_bits / 32;
+    uint64_t lo = s->w[0], hi = s->w[1];
+    for (i = 0; i < nsteps; i += 32) {
+        uint32_t k = (uint32_t)key[4 * kw] | ((uint32_t)key[4 * kw + 1] << 8) | ((uint32_t)key[4 * kw + 2] << 16) | ((uint32_t)key[4 * kw + 3] << 24);
+        uint32_t t47 = (uint32_t)((lo >> 47) | (hi << 17)), t70 = (uint32_t)(hi >> 6), t85 = (uint32_t)(hi >> 21), t91 = (uint32_t)(hi >> 27);
+        uint32_t fb = (uint32_t)lo ^ t47 ^ ~(t70 & t85) ^ t91 ^ k;
+        lo = (lo >> 32) | (hi << 32);
+        hi = (hi >> 32) | ((uint64_t)fb << 32);
+        if (++kw == nkw) kw = 0;
+    }
+    s->w[0] = lo; s->w[1] = hi;
+}
+
+static void m_perm_slow(m_state_t *s, const uint8_t *key, unsigned klen_bits, unsigned nsteps);
+
 void m_perm(m_state_t *s, const uint8_t *key, unsigned klen_bits, unsigned nsteps)
+{
+    if (g_fast_perm && nsteps % 32 == 0 && klen_bits % 32 == 0) m_perm_fast(s, key, klen_bits, nsteps);
+    else m_perm_slow(s, key, klen_bits, nsteps);
+}
+
+int m_use_fast_perm(int on)
+{
+    if (on) {
+        /* pin the batch version to the literal one before anything relies on it */
+        uint64_t x = 0x243F6A8885A308D3ULL;
+        int t, j;
+        for (t = 0; t < 600; ++t) {
+            static const unsigned KL[3] = {128, 192, 256}, NS[6] = {32, 64, 640, 1024, 1152, 1280};
+            m_state_t a, b;
+            uint8_t key[32];
+            for (j = 0; j < 32; ++j) { x ^= x << 13; x ^= x >> 7; x ^= x << 17; key[j] = (uint8_t)(x >> 24); }
+            x ^= x << 13; x ^= x >> 7; x ^= x << 17; a.w[0] = b.w[0] = t == 0 ? 0 : t == 1 ? ~0ULL : x;
+            x ^= x << 13; x ^= x >> 7; x ^= x << 17; a.w[1] = b.w[1] = t == 0 ? 0 : t == 1 ? ~0ULL : x;
+            m_perm_slow(&a, key, KL[t % 3], NS[t % 6]);
+            m_perm_fast(&b, key, KL[t % 3], NS[t % 6]);
+            if (a.w[0] != b.w[0] || a.w[1] != b.w[1]) return -1;
+        }
+    }
+    g_fast_perm = on;
+    return 0;
+}
+
+static void m_perm_slow(m_state_t *s, const uint8_t *key, unsigned klen_bits, unsigned nsteps)
 {
     unsigned i, ki = 0;
     for (i = 0; i < nsteps; ++i) {
@@ -197,6 +246,45 @@ void m_siv_encrypt(int ks, uint8_t *c, const uint8_t *m, size_t mlen,
     siv_stream(ks, c, m, mlen, npub, tag, k);
     memcpy(c + mlen, tag, 8);
 }
+
+/* ---- streaming forms for messages that do not fit twice into memory: every chunk but the last is a multiple of 4 */
+void m_stream_begin(m_stream_t *st, int ks, const uint8_t *k, const uint8_t *npub, unsigned setup_fb,
+                    const uint8_t *ad, size_t adlen)
+{
+    st->ks = ks; st->k = k;
+    a_setup(&st->s, ks, k, npub, setup_fb);
+    if (ad || adlen == 0) a_absorb(&st->s, ks, k, ad, adlen, 0x30, 640);
+}
+void m_stream_aead_encrypt(m_stream_t *st, uint8_t *c, const uint8_t *m, size_t n)
+{
+    size_t i = 0, j;
+    while (i < n) {
+        size_t l = n - i >= 4 ? 4 : n - i;
+        uint32_t p = le_bytes(m + i, l), ksw;
+        sxor32(&st->s, 32, 0x50);
+        m_perm(&st->s, st->k, st->ks * 8, pk_steps(st->ks));
+        sxor32(&st->s, 96, p);
+        ksw = sget32(&st->s, 64);
+        for (j = 0; j < l; ++j) c[i + j] = (uint8_t)((p ^ ksw) >> (8 * j));
+        if (l < 4) sxor32(&st->s, 32, (uint32_t)l);
+        i += l;
+    }
+}
+void m_stream_absorb_msg(m_stream_t *st, const uint8_t *m, size_t n) { a_absorb(&st->s, st->ks, st->k, m, n, 0x50, pk_steps(st->ks)); }
+void m_stream_keystream_xor(m_stream_t *st, uint8_t *out, const uint8_t *in, size_t n)
+{
+    size_t i = 0, j;
+    while (i < n) {
+        size_t l = n - i >= 4 ? 4 : n - i;
+        uint32_t ksw;
+        sxor32(&st->s, 32, 0xD0);
+        m_perm(&st->s, st->k, st->ks * 8, pk_steps(st->ks));
+        ksw = sget32(&st->s, 64);
+        for (j = 0; j < l; ++j) out[i + j] = in[i + j] ^ (uint8_t)(ksw >> (8 * j));
+        i += l;
+    }
+}
+void m_stream_tag(m_stream_t *st, uint8_t tag[8]) { a_tag(&st->s, st->ks, st->k, tag); }
 
 void m_siv_open(int ks, uint8_t *m, uint8_t tag[8], const uint8_t *body, size_t blen,
                 const uint8_t rtag[8], const uint8_t *ad, size_t adlen,
